@@ -7,67 +7,6 @@ import PysamlModel.Spec.C03
 namespace Keys
 variable {ι κ : Type} [DecidableEq κ]
 
-/-! ### `seqAppend` -/
-
-omit [DecidableEq κ] in
-theorem seqAppend_mem {xs : List (Option (List κ))} {cs : List κ} (h : seqAppend xs = some cs) (c : κ) :
-    c ∈ cs ↔ ∃ l, some l ∈ xs ∧ c ∈ l := by
-  induction xs generalizing cs with
-  | nil =>
-    simp only [seqAppend, Option.some.injEq] at h
-    subst h
-    simp
-  | cons x rest ih =>
-    cases x with
-    | none => simp [seqAppend] at h
-    | some l =>
-      simp only [seqAppend] at h
-      cases hr : seqAppend rest with
-      | none => rw [hr] at h; cases h
-      | some r =>
-        rw [hr] at h
-        simp only [Option.some.injEq] at h
-        subst h
-        simp only [List.mem_append, List.mem_cons, Option.some.injEq]
-        rw [ih hr]
-        constructor
-        · rintro (h1 | ⟨l', hl', hc⟩)
-          · exact ⟨l, Or.inl rfl, h1⟩
-          · exact ⟨l', Or.inr hl', hc⟩
-        · rintro ⟨l', (h1 | h1), hc⟩
-          · subst h1; exact Or.inl hc
-          · exact Or.inr ⟨l', h1, hc⟩
-
-omit [DecidableEq κ] in
-theorem seqAppend_some_of_all {xs : List (Option (List κ))} (h : ∀ x ∈ xs, x ≠ none) :
-    ∃ cs, seqAppend xs = some cs := by
-  induction xs with
-  | nil => exact ⟨[], rfl⟩
-  | cons x rest ih =>
-    cases x with
-    | none => exact absurd rfl (h none (by simp))
-    | some l =>
-      obtain ⟨r, hr⟩ := ih (fun y hy => h y (List.mem_cons_of_mem _ hy))
-      exact ⟨l ++ r, by simp [seqAppend, hr]⟩
-
-omit [DecidableEq κ] in
-theorem seqAppend_all_of_some {xs : List (Option (List κ))} {cs : List κ} (h : seqAppend xs = some cs) :
-    ∀ x ∈ xs, x ≠ none := by
-  induction xs generalizing cs with
-  | nil => intro x hx; cases hx
-  | cons y rest ih =>
-    cases y with
-    | none => simp [seqAppend] at h
-    | some l =>
-      simp only [seqAppend] at h
-      cases hr : seqAppend rest with
-      | none => rw [hr] at h; cases h
-      | some r =>
-        intro x hx
-        rcases List.mem_cons.mp hx with h1 | h1
-        · subst h1; simp
-        · exact ih hr x h1
-
 /-! ### `use` filter -/
 
 omit [DecidableEq κ] in
@@ -82,27 +21,17 @@ theorem applicable_signing_iff (kd : KeyDescr κ) :
 
 omit [DecidableEq κ] in
 theorem mem_kdBound {kd : KeyDescr κ} {c : κ} :
-    c ∈ kdBound kd ↔ applicable .signing kd = true ∧ ∃ l, kd.certs = some l ∧ c ∈ l := by
+    c ∈ kdBound kd ↔ applicable .signing kd = true ∧ c ∈ kdCerts kd := by
   rw [applicable_signing_iff]
-  unfold kdBound
+  unfold kdBound kdCerts
   cases hu : kd.use with
-  | none =>
-    cases hcs : kd.certs with
-    | none => simp
-    | some l => simp
-  | some u =>
-    cases u with
-    | encryption => simp
-    | signing =>
-      cases hcs : kd.certs with
-      | none => simp
-      | some l => simp
+  | none => simp
+  | some u => cases u <;> simp
 
 omit [DecidableEq κ] in
 theorem mem_boundKeys {md : Metadata ι κ} {i : ι} {c : κ} :
     c ∈ boundKeys md (some i) ↔
-      ∃ ent, md i = some ent ∧ ∃ r ∈ ent.roles, ∃ kd ∈ r.keys, applicable .signing kd = true ∧
-        ∃ l, kd.certs = some l ∧ c ∈ l := by
+      ∃ ent, md i = some ent ∧ ∃ r ∈ ent.roles, ∃ kd ∈ r.keys, applicable .signing kd = true ∧ c ∈ kdCerts kd := by
   simp only [boundKeys]
   cases hmd : md i with
   | none => simp
@@ -116,30 +45,45 @@ omit [DecidableEq κ] in
 theorem boundKeys_unknown {md : Metadata ι κ} {i : ι} (h : md i = none) : boundKeys md (some i) = [] := by
   simp only [boundKeys, h]
 
-/-! ### `MetaData.certs`: soundness (only bound certificates) and, for well-keyed entities and a
-    complete role order, completeness -/
+/-! ### `MetaData.certs`: soundness (only bound certificates, any role order) and completeness
+    (every bound certificate, for a role order that names every role kind) -/
 
 omit [DecidableEq κ] in
-theorem extractCerts_sound {use : Use} {kds : List (KeyDescr κ)} {cs : List κ}
-    (h : extractCerts use kds = some cs) {c : κ} (hc : c ∈ cs) :
-    ∃ kd ∈ kds, applicable use kd = true ∧ ∃ l, kd.certs = some l ∧ c ∈ l := by
-  unfold extractCerts at h
-  obtain ⟨l, hl, hcl⟩ := (seqAppend_mem h c).mp hc
-  obtain ⟨kd, hkd, hkdl⟩ := List.mem_map.mp hl
-  obtain ⟨hin, happ⟩ := List.mem_filter.mp hkd
-  exact ⟨kd, hin, happ, l, hkdl, hcl⟩
+theorem mem_extractCerts {use : Use} {kds : List (KeyDescr κ)} {c : κ} :
+    c ∈ extractCerts use kds ↔ ∃ kd ∈ kds, applicable use kd = true ∧ c ∈ kdCerts kd := by
+  unfold extractCerts
+  simp only [List.mem_flatMap, List.mem_filter]
+  constructor
+  · rintro ⟨kd, ⟨h1, h2⟩, h3⟩; exact ⟨kd, h1, h2, h3⟩
+  · rintro ⟨kd, h1, h2, h3⟩; exact ⟨kd, ⟨h1, h2⟩, h3⟩
 
 omit [DecidableEq κ] in
-theorem certsAny_sound {order : List RoleKind} {use : Use} {ent : Entity κ} {cs : List κ}
-    (h : certsAny order use ent = some cs) {c : κ} (hc : c ∈ cs) :
-    ∃ r ∈ ent.roles, ∃ kd ∈ r.keys, applicable use kd = true ∧ ∃ l, kd.certs = some l ∧ c ∈ l := by
-  unfold certsAny at h
-  obtain ⟨l, hl, hcl⟩ := (seqAppend_mem h c).mp hc
-  obtain ⟨k, _, hk⟩ := List.mem_map.mp hl
-  unfold roleCerts at hk
-  obtain ⟨kd, hkd, happ, l', hl', hcl'⟩ := extractCerts_sound hk hcl
-  obtain ⟨r, hr, hkdr⟩ := List.mem_flatMap.mp hkd
-  exact ⟨r, (List.mem_filter.mp hr).1, kd, hkdr, happ, l', hl', hcl'⟩
+theorem mem_roleCerts {use : Use} {ent : Entity κ} {k : RoleKind} {c : κ} :
+    c ∈ roleCerts use ent k ↔
+      ∃ r ∈ ent.roles, r.kind = k ∧ ∃ kd ∈ r.keys, applicable use kd = true ∧ c ∈ kdCerts kd := by
+  unfold roleCerts
+  rw [mem_extractCerts]
+  simp only [List.mem_flatMap, List.mem_filter, decide_eq_true_eq]
+  constructor
+  · rintro ⟨kd, ⟨r, ⟨hr, hk⟩, hkd⟩, happ, hc⟩; exact ⟨r, hr, hk, kd, hkd, happ, hc⟩
+  · rintro ⟨r, hr, hk, kd, hkd, happ, hc⟩; exact ⟨kd, ⟨r, ⟨hr, hk⟩, hkd⟩, happ, hc⟩
+
+omit [DecidableEq κ] in
+theorem certsAny_sound {order : List RoleKind} {use : Use} {ent : Entity κ} {c : κ}
+    (hc : c ∈ certsAny order use ent) :
+    ∃ r ∈ ent.roles, ∃ kd ∈ r.keys, applicable use kd = true ∧ c ∈ kdCerts kd := by
+  unfold certsAny at hc
+  obtain ⟨k, _, hk⟩ := List.mem_flatMap.mp hc
+  obtain ⟨r, hr, _, kd, hkd, happ, hckd⟩ := mem_roleCerts.mp hk
+  exact ⟨r, hr, kd, hkd, happ, hckd⟩
+
+omit [DecidableEq κ] in
+theorem certsAny_complete {order : List RoleKind} (hord : ∀ k : RoleKind, k ∈ order) {use : Use}
+    {ent : Entity κ} {r : RoleDescr κ} (hr : r ∈ ent.roles) {kd : KeyDescr κ} (hkd : kd ∈ r.keys)
+    (happ : applicable use kd = true) {c : κ} (hc : c ∈ kdCerts kd) :
+    c ∈ certsAny order use ent := by
+  unfold certsAny
+  exact List.mem_flatMap.mpr ⟨r.kind, hord r.kind, mem_roleCerts.mpr ⟨r, hr, rfl, kd, hkd, happ, hc⟩⟩
 
 omit [DecidableEq κ] in
 /-- Every certificate the metadata lookup returns is bound to the issuer for signing
@@ -156,56 +100,38 @@ theorem mdCerts_sound {order : List RoleKind} {md : Metadata ι κ} {issuer : Op
     | none => rw [hmd] at h; cases h
     | some ent =>
       rw [hmd] at h
-      simp only at h
-      obtain ⟨r, hr, kd, hkd, happ, l, hl, hcl⟩ := certsAny_sound h hc
-      exact mem_boundKeys.mpr ⟨ent, hmd, r, hr, kd, hkd, happ, l, hl, hcl⟩
+      simp only [Option.some.injEq] at h
+      subst h
+      obtain ⟨r, hr, kd, hkd, happ, hckd⟩ := certsAny_sound hc
+      exact mem_boundKeys.mpr ⟨ent, hmd, r, hr, kd, hkd, happ, hckd⟩
 
 omit [DecidableEq κ] in
-theorem wellKeyed_kd {md : Metadata ι κ} {i : ι} {ent : Entity κ} (hw : wellKeyed md (some i) = true)
-    (hmd : md i = some ent) {r : RoleDescr κ} (hr : r ∈ ent.roles) {kd : KeyDescr κ} (hkd : kd ∈ r.keys)
-    (happ : applicable .signing kd = true) : kd.certs ≠ none := by
-  simp only [wellKeyed, hmd, List.all_eq_true, Bool.or_eq_true, Bool.not_eq_true'] at hw
-  rcases hw r hr kd hkd with h | h
-  · rw [happ] at h; cases h
-  · intro hn; rw [hn] at h; cases h
+/-- For a role order that names every role kind the lookup returns every bound certificate. -/
+theorem mdCerts_complete {order : List RoleKind} (hord : ∀ k : RoleKind, k ∈ order) {md : Metadata ι κ}
+    {issuer : Option ι} {c : κ} (hc : c ∈ boundKeys md issuer) :
+    ∃ cs, mdCerts order md issuer .signing = some cs ∧ c ∈ cs := by
+  cases issuer with
+  | none => cases hc
+  | some i =>
+    obtain ⟨ent, hmd, r, hr, kd, hkd, happ, hckd⟩ := mem_boundKeys.mp hc
+    exact ⟨certsAny order .signing ent, by simp only [mdCerts, hmd],
+      certsAny_complete hord hr hkd happ hckd⟩
 
 omit [DecidableEq κ] in
-theorem roleCerts_some {md : Metadata ι κ} {i : ι} {ent : Entity κ} (hw : wellKeyed md (some i) = true)
-    (hmd : md i = some ent) (k : RoleKind) : ∃ cs, roleCerts .signing ent k = some cs := by
-  unfold roleCerts extractCerts
-  apply seqAppend_some_of_all
-  intro x hx
-  obtain ⟨kd, hkd, rfl⟩ := List.mem_map.mp hx
-  obtain ⟨hin, happ⟩ := List.mem_filter.mp hkd
-  obtain ⟨r, hr, hkdr⟩ := List.mem_flatMap.mp hin
-  exact wellKeyed_kd hw hmd (List.mem_filter.mp hr).1 hkdr happ
-
-omit [DecidableEq κ] in
-/-- For a well-keyed entity and a role order that names every role kind, the lookup succeeds
-    and returns every bound certificate. -/
-theorem certsAny_complete {order : List RoleKind} (hord : ∀ k : RoleKind, k ∈ order) {md : Metadata ι κ}
-    {i : ι} {ent : Entity κ} (hw : wellKeyed md (some i) = true) (hmd : md i = some ent) :
-    ∃ cs, certsAny order .signing ent = some cs ∧ ∀ c ∈ boundKeys md (some i), c ∈ cs := by
-  have hall : ∀ x ∈ order.map (roleCerts .signing ent), x ≠ none := by
-    intro x hx
-    obtain ⟨k, _, rfl⟩ := List.mem_map.mp hx
-    obtain ⟨cs, hcs⟩ := roleCerts_some hw hmd k
-    rw [hcs]; simp
-  obtain ⟨cs, hcs⟩ := seqAppend_some_of_all hall
-  refine ⟨cs, hcs, ?_⟩
+/-- When the lookup gives nothing (complete role order), nothing is bound. -/
+theorem boundKeys_nil_of_lookup_empty {order : List RoleKind} (hord : ∀ k : RoleKind, k ∈ order)
+    {md : Metadata ι κ} {issuer : Option ι}
+    (h : mdCerts order md issuer .signing = none ∨ mdCerts order md issuer .signing = some []) :
+    boundKeys md issuer = [] := by
+  apply List.eq_nil_iff_forall_not_mem.mpr
   intro c hc
-  obtain ⟨ent', hmd', r, hr, kd, hkd, happ, l, hl, hcl⟩ := mem_boundKeys.mp hc
-  rw [hmd] at hmd'
-  cases hmd'
-  obtain ⟨rc, hrc⟩ := roleCerts_some hw hmd r.kind
-  have hc_rc : c ∈ rc := by
-    have hrc' := hrc
-    unfold roleCerts extractCerts at hrc'
-    refine (seqAppend_mem hrc' c).mpr ⟨l, ?_, hcl⟩
-    refine List.mem_map.mpr ⟨kd, List.mem_filter.mpr ⟨?_, happ⟩, hl⟩
-    exact List.mem_flatMap.mpr ⟨r, List.mem_filter.mpr ⟨hr, by simp⟩, hkd⟩
-  refine (seqAppend_mem hcs c).mpr ⟨rc, ?_, hc_rc⟩
-  exact List.mem_map.mpr ⟨r.kind, hord r.kind, hrc⟩
+  obtain ⟨cs, hcs, hmem⟩ := mdCerts_complete hord hc
+  rw [hcs] at h
+  rcases h with h | h
+  · cases h
+  · simp only [Option.some.injEq] at h
+    subst h
+    cases hmem
 
 /-! ### the verification loop -/
 
@@ -251,6 +177,15 @@ theorem tryCerts_handed_subset {restricted : Bool} {m : Msg ι κ} {cs : List κ
       rcases List.mem_cons.mp h with h1 | h1
       · subst h1; simp
       · exact List.mem_cons_of_mem _ (ih h1)
+
+theorem tryCerts_congr {m m' : Msg ι κ} (hs : m.signer = m'.signer) (cs : List κ) :
+    tryCerts true m cs = tryCerts true m' cs := by
+  induction cs with
+  | nil => rfl
+  | cons c rest ih =>
+    unfold tryCerts
+    have : verifies true c m = verifies true c m' := by simp [verifies, verifyKey, hs]
+    rw [this, ih]
 
 /-! ### `_check_signature` -/
 
@@ -298,38 +233,7 @@ theorem selectCerts_cases (order : List RoleKind) (onlyMd : Bool) (md : Metadata
       | false => right; left; simp
     | cons c rest => left; exact ⟨c :: rest, rfl, by simp⟩
 
-omit [DecidableEq κ] in
-/-- When the lookup gives nothing for a well-keyed issuer (complete role order), nothing is bound. -/
-theorem boundKeys_nil_of_lookup_empty {order : List RoleKind} (hord : ∀ k : RoleKind, k ∈ order)
-    {md : Metadata ι κ} {issuer : Option ι} (hw : wellKeyed md issuer = true)
-    (h : mdCerts order md issuer .signing = none ∨ mdCerts order md issuer .signing = some []) :
-    boundKeys md issuer = [] := by
-  cases issuer with
-  | none => rfl
-  | some i =>
-    cases hmd : md i with
-    | none => exact boundKeys_unknown hmd
-    | some ent =>
-      obtain ⟨cs, hcs, hsub⟩ := certsAny_complete hord hw hmd
-      have hmc : mdCerts order md (some i) .signing = some cs := by
-        simp only [mdCerts, hmd, hcs]
-      rw [hmc] at h
-      rcases h with h | h
-      · cases h
-      · simp only [Option.some.injEq] at h
-        subst h
-        apply List.eq_nil_iff_forall_not_mem.mpr
-        intro c hc
-        exact absurd (hsub c hc) (by simp)
-
-theorem tryCerts_congr {m m' : Msg ι κ} (hs : m.signer = m'.signer) (cs : List κ) :
-    tryCerts true m cs = tryCerts true m' cs := by
-  induction cs with
-  | nil => rfl
-  | cons c rest ih =>
-    unfold tryCerts
-    have : verifies true c m = verifies true c m' := by simp [verifies, verifyKey, hs]
-    rw [this, ih]
+/-! ### Redirect and the message kinds -/
 
 theorem redirectCheck_accepted {order : List RoleKind} {md : Metadata ι κ} {issuer : Option ι}
     {signer : Option κ} (h : (redirectCheck order md issuer signer).verdict = .accepted) :
